@@ -2,11 +2,12 @@ package main
 
 import (
 	"fmt"
-	"os"
 	"go/ast"
 	"go/token"
 	"go/types"
+	"os"
 	"sort"
+	"strconv"
 	"strings"
 
 	"golang.org/x/tools/go/packages"
@@ -313,14 +314,44 @@ func ruleAccessors(c *Ctx, r *Repo, r1, r2, r3 string) {
 	} else {
 		c.Func(funcKey(tp, fd))
 		f := listAccessorFactsP(tp, fd)
-		// the prefix decision table: value of `end` when the slice is taken
+		// The bounds: the decision table of the statements before the sub-slice of the parameters is taken,
+		// evaluated for small values of end and len(Params) against the documented meaning (a negative end
+		// is len(Params); end == 1 on a parameterless method is 0; otherwise end; an end beyond the last
+		// parameter is outside the documented domain). The slice may be taken in a helper that is handed
+		// (start, end): its table is read with the caller's arguments.
 		d := newDT(info)
 		d.paths = nil
-		// the statement in which the sub-slice of the parameters is taken, and the statements before it
+		holder, startEnv := fd, seedEnv(d, fd)
+		hasSlice := func(g *ast.FuncDecl) bool {
+			found := false
+			ast.Inspect(g.Body, func(n ast.Node) bool {
+				if _, ok := n.(*ast.SliceExpr); ok {
+					found = true
+				}
+				return true
+			})
+			return found
+		}
+		helperCall := ""
+		if !hasSlice(fd) {
+			ast.Inspect(fd.Body, func(n ast.Node) bool {
+				if call, ok := n.(*ast.CallExpr); ok && holder == fd {
+					if fn := calleeFunc(info, call); fn != nil {
+						if g := pkgFuncs(tp)[fn]; g != nil && g.Body != nil && hasSlice(g) {
+							if q := d.bindCall(startEnv, g, call); q != nil {
+								holder, startEnv = g, q
+								helperCall = newFuncCanon(info, fd).E(call)
+							}
+						}
+					}
+				}
+				return true
+			})
+		}
 		var prefix []ast.Stmt
 		var sliceStmt ast.Stmt
 		var sliceExpr *ast.SliceExpr
-		for _, s := range fd.Body.List {
+		for _, s := range holder.Body.List {
 			ast.Inspect(s, func(n ast.Node) bool {
 				if se, ok := n.(*ast.SliceExpr); ok && sliceExpr == nil {
 					sliceExpr = se
@@ -333,38 +364,98 @@ func ruleAccessors(c *Ctx, r *Repo, r1, r2, r3 string) {
 			}
 			prefix = append(prefix, s)
 		}
+		if holder != fd && sliceStmt != nil {
+			// the helper must hand back exactly the slice it takes
+			if rs, ok := sliceStmt.(*ast.ReturnStmt); !ok || len(rs.Results) != 1 || ast.Unparen(rs.Results[0]) != ast.Expr(sliceExpr) {
+				sliceStmt = nil
+			}
+		}
 		okTable := sliceStmt != nil
 		if okTable {
-			d.stmts(seedEnv(d, fd), prefix, func(p *dtPath) { d.finish(p, "end") })
-			for _, p := range d.paths {
-				if p.Exit != "end" {
-					continue
+			d.stmts(startEnv, prefix, func(p *dtPath) { d.finish(p, "end") })
+			term := func(t string, e, n int) (int, bool) {
+				switch t {
+				case "ARG1":
+					return e, true
+				case "builtin.len(RECV.Params)":
+					return n, true
 				}
-				got := d.canon(p, sliceExpr)
-				neg, hasNeg := p.atom("ARG1 < 0")
-				endv := "ARG1"
-				if hasNeg && neg {
-					endv = "builtin.len(RECV.Params)"
+				v, err := strconv.Atoi(t)
+				return v, err == nil
+			}
+			atomTrue := func(a string, e, n int) (bool, bool) {
+				for _, op := range []string{" <= ", " >= ", " == ", " < ", " > "} {
+					if i := strings.Index(a, op); i > 0 {
+						x, ok1 := term(a[:i], e, n)
+						y, ok2 := term(a[i+len(op):], e, n)
+						if !ok1 || !ok2 {
+							return false, false
+						}
+						switch op {
+						case " <= ":
+							return x <= y, true
+						case " >= ":
+							return x >= y, true
+						case " == ":
+							return x == y, true
+						case " < ":
+							return x < y, true
+						default:
+							return x > y, true
+						}
+					}
 				}
-				// second rule: end == 1 && len(Params) == 0 => 0
-				one, hasOne := p.atom(endv + " == 1")
-				empty, hasEmpty := p.atom("builtin.len(RECV.Params) == 0")
-				if hasOne && one && hasEmpty && empty {
-					endv = "0"
-				}
-				if !hasNeg || got != "RECV.Params[ARG0:"+endv+"]" {
-					okTable = false
-					c.Fail(r2, "argCallListSlice|bounds", r.Pos(sliceStmt.Pos()), fmt.Sprintf("on path %s the parameters taken are %s; documented: Params[start:end] with a negative end meaning len(Params) and end == 1 on a parameterless method meaning 0", p.String(), got))
-				}
+				return false, false
 			}
 			for _, a := range atomsOf(d.paths) {
-				switch a {
-				case "ARG1 < 0", "ARG1 == 1", "builtin.len(RECV.Params) == 1", "builtin.len(RECV.Params) == 0":
-				default:
+				if _, ok := atomTrue(a, 0, 0); !ok {
 					okTable = false
-					c.Fail(r2, "argCallListSlice|unknown-condition|"+a, r.Pos(fd.Pos()), "argCallListSlice branches on "+a+"; documented conditions: end < 0, end == 1 && len(Params) == 0")
+					c.Fail(r2, "argCallListSlice|unknown-condition|"+a, r.Pos(holder.Pos()), "argCallListSlice branches on "+a+"; documented conditions compare end and len(Params)")
 				}
 			}
+			for e := -2; e <= 5 && okTable; e++ {
+				for n := 0; n <= 4 && okTable; n++ {
+					want := e
+					switch {
+					case e < 0:
+						want = n
+					case e == 1 && n == 0:
+						want = 0
+					case e > n:
+						continue // outside the documented domain (the original slices out of range)
+					}
+					nCons := 0
+					for _, p := range d.paths {
+						if p.Exit != "end" {
+							continue
+						}
+						cons := true
+						for _, a := range p.Atoms {
+							if v, _ := atomTrue(a.Expr, e, n); v != a.Val {
+								cons = false
+							}
+						}
+						if !cons {
+							continue
+						}
+						nCons++
+						got := d.canon(p, sliceExpr)
+						hi := strings.TrimSuffix(strings.TrimPrefix(got, "RECV.Params[ARG0:"), "]")
+						v, ok := term(hi, e, n)
+						if !strings.HasPrefix(got, "RECV.Params[ARG0:") || !ok || v != want {
+							okTable = false
+							c.Fail(r2, "argCallListSlice|bounds", r.Pos(sliceStmt.Pos()), fmt.Sprintf("for end = %d on a method with %d parameters the parameters taken are %s (path %s); documented: Params[start:%d] (a negative end means len(Params), end == 1 on a parameterless method means 0)", e, n, got, p.String(), want))
+						}
+					}
+					if nCons != 1 {
+						okTable = false
+						c.Fail(r2, "argCallListSlice|bounds", r.Pos(holder.Pos()), fmt.Sprintf("for end = %d on a method with %d parameters %d paths reach the slice, want 1", e, n, nCons))
+					}
+				}
+			}
+		}
+		if helperCall != "" && f.ranged == helperCall && strings.HasSuffix(helperCall, "(ARG0, ARG1)") {
+			f.ranged = "RECV.Params[ARG0:" // taken by the helper examined above
 		}
 		okList := f.ok && f.elem == "P.CallName<(template.Param).CallName>(ARG2)" && f.sep == `", "` && strings.HasPrefix(f.ranged, "RECV.Params[ARG0:")
 		c.Check(okTable && okList, r2, "argCallListSlice|semantics", r.Pos(fd.Pos()), "Params[start:end'] mapped through CallName(ellipsis)", "argCallListSlice does not render Params[start:end] through CallName(ellipsis) joined by \", \" ("+f.why+" "+f.elem+")")
@@ -411,9 +502,13 @@ func ruleAccessors(c *Ctx, r *Repo, r1, r2, r3 string) {
 	}
 	const tsR = "go/types.TypeString(RECV.Var.typ, RECV.Var.packageQualifier)"
 	const nmR = "RECV.Var.Name"
+	// The tables are written over two normal forms: elem(T) is T without its leading "[]" (for a variadic
+	// parameter go/types prints the slice type, so T[2:], strings.TrimPrefix(T, "[]") and the tail of
+	// strings.Replace(T, "[]", "...", 1) are all elem(T)), and adjacent string literals are joined.
+	const elemR = "elem(" + tsR + ")"
 	tables := map[string][]row{
 		"Param.MethodArg": {
-			{map[string]bool{"RECV.Variadic": true}, nmR + ` + " ..." + ` + tsR + `[2:]`},
+			{map[string]bool{"RECV.Variadic": true}, nmR + ` + " ..." + ` + elemR},
 			{map[string]bool{"RECV.Variadic": false}, nmR + ` + " " + ` + tsR},
 		},
 		"Param.CallName": {
@@ -423,8 +518,38 @@ func ruleAccessors(c *Ctx, r *Repo, r1, r2, r3 string) {
 		},
 		"Param.TypeStringEllipsis": {
 			{map[string]bool{"RECV.Variadic": false}, tsR},
-			{map[string]bool{"RECV.Variadic": true}, `strings.Replace(` + tsR + `, "[]", "...", 1)`},
+			{map[string]bool{"RECV.Variadic": true}, `"..." + ` + elemR},
 		},
+		// documented for variadic parameters only (the templates ask it of the variadic parameter)
+		"Param.TypeStringVariadicUnderlying": {
+			{map[string]bool{"RECV.Variadic": true}, elemR},
+		},
+	}
+	norm := func(x string) string {
+		for _, pat := range []struct{ from, to string }{
+			{`strings.Replace(` + tsR + `, "[]", "...", 1)`, `"..." + ` + elemR},
+			{`strings.TrimPrefix(` + tsR + `, "[]")`, elemR},
+			{tsR + `[2:]`, elemR},
+			{`strings.Replace("..." + ` + elemR + `, "...", "", 1)`, elemR},
+			{`strings.TrimPrefix("..." + ` + elemR + `, "...")`, elemR},
+		} {
+			x = strings.ReplaceAll(x, pat.from, pat.to)
+		}
+		// join adjacent literals of a concatenation
+		parts := strings.Split(x, " + ")
+		var out []string
+		for _, pt := range parts {
+			if n := len(out); n > 0 && len(pt) >= 2 && pt[0] == '"' && pt[len(pt)-1] == '"' && len(out[n-1]) >= 2 && out[n-1][0] == '"' && out[n-1][len(out[n-1])-1] == '"' {
+				a, e1 := strconv.Unquote(out[n-1])
+				b, e2 := strconv.Unquote(pt)
+				if e1 == nil && e2 == nil {
+					out[n-1] = strconv.Quote(a + b)
+					continue
+				}
+			}
+			out = append(out, pt)
+		}
+		return strings.Join(out, " + ")
 	}
 	var tn []string
 	for k := range tables {
@@ -438,42 +563,64 @@ func ruleAccessors(c *Ctx, r *Repo, r1, r2, r3 string) {
 			continue
 		}
 		c.Func(funcKey(tp, fd))
-		paths, _ := enumerateFuncP(tp, fd)
+		paths, _ := enumerateFuncFollow(tp, fd)
 		if os.Getenv("MVCHECK_LIST") != "" {
 			for _, p := range paths {
 				fmt.Printf("TABLE\t%s\t%s\n", fn, p.String())
 			}
 		}
-		ok := len(paths) == len(tables[fn])
-		why := fmt.Sprintf("%d paths, want %d", len(paths), len(tables[fn]))
+		ok := len(paths) > 0
+		why := "no paths"
+		covered := map[int]bool{}
 		for _, p := range paths {
+			// the path's conditions, each once
+			conds := map[string]bool{}
+			consistent := true
+			for _, a := range p.Atoms {
+				if v, has := conds[a.Expr]; has && v != a.Val {
+					consistent = false
+				}
+				conds[a.Expr] = a.Val
+			}
+			if !consistent {
+				continue
+			}
 			matched := false
-			for _, row := range tables[fn] {
-				m := len(p.Atoms) == len(row.conds)
-				for _, a := range p.Atoms {
-					if v, has := row.conds[a.Expr]; !has || v != a.Val {
+			for ri, row := range tables[fn] {
+				// the row applies when the path decides nothing the row does not and agrees where both do;
+				// a path that leaves one of the row's conditions open covers the row for both values
+				m := true
+				for e, v := range conds {
+					if rv, has := row.conds[e]; !has {
+						if _, known := map[string]bool{"RECV.Variadic": true, "ARG0": true}[e]; !known {
+							m = false
+						}
+					} else if rv != v {
 						m = false
 					}
 				}
-				if m {
-					matched = true
-					if p.Exit != "return" || p.Ret[0] != row.ret {
-						ok = false
-						why = fmt.Sprintf("for %v it returns %v, documented %s", row.conds, p.Ret, row.ret)
-					}
+				if !m {
+					continue
+				}
+				matched = true
+				covered[ri] = true
+				if p.Exit != "return" || norm(p.Ret[0]) != row.ret {
+					ok = false
+					why = fmt.Sprintf("for %v it returns %v, documented %s", row.conds, norm(strings.Join(p.Ret, ",")), row.ret)
 				}
 			}
-			if !matched {
+			if !matched && fn != "Param.TypeStringVariadicUnderlying" {
 				ok = false
 				why = "undocumented case " + p.String()
 			}
 		}
+		for ri, row := range tables[fn] {
+			if !covered[ri] {
+				ok = false
+				why = fmt.Sprintf("no path for the documented case %v", row.conds)
+			}
+		}
 		c.Check(ok, r3, fn+"|table", r.Pos(fd.Pos()), fn+" matches its documented cases", fn+": "+why)
-	}
-	if fd := FuncDecl(tp, "Param.TypeStringVariadicUnderlying"); fd != nil {
-		paths, _ := enumerateFuncP(tp, fd)
-		ok := len(paths) == 1 && paths[0].Exit == "return" && paths[0].Ret[0] == `strings.Replace(RECV.TypeStringEllipsis<(template.Param).TypeStringEllipsis>(), "...", "", 1)`
-		c.Check(ok, r3, "Param.TypeStringVariadicUnderlying|table", r.Pos(fd.Pos()), "ellipsis form without its first ...", "TypeStringVariadicUnderlying is not TypeStringEllipsis with its first \"...\" removed")
 	}
 }
 
@@ -536,6 +683,15 @@ func ruleNameResolution(c *Ctx, r *Repo, rule string) {
 		// inside the per-interface loop: a loop over methods calling Scope.ResolveVariableNameCollisions, before template.Interface literal
 		okCall := false
 		var resolvePos, dataPos ast.Node
+		// the function of Generate's family that builds the template.Interface value
+		for _, g := range familyOf(ip, gen) {
+			ast.Inspect(g.Body, func(n ast.Node) bool {
+				if x, ok := n.(*ast.CompositeLit); ok && len(x.Elts) > 0 && types.ExprString(x.Type) == "template.Interface" {
+					gen = g
+				}
+				return true
+			})
+		}
 		ast.Inspect(gen.Body, func(n ast.Node) bool {
 			switch x := n.(type) {
 			case *ast.RangeStmt:
@@ -553,7 +709,7 @@ func ruleNameResolution(c *Ctx, r *Repo, rule string) {
 					}
 				}
 			case *ast.CompositeLit:
-				if types.ExprString(x.Type) == "template.Interface" {
+				if types.ExprString(x.Type) == "template.Interface" && len(x.Elts) > 0 {
 					dataPos = x
 				}
 			}
